@@ -173,6 +173,7 @@ func init() {
 			ruleMatcherGuard(c, r, "", false)
 			ruleDecoderBounds(c, r, "")
 			ruleRingModulus(c, r, "", "enc")
+			ruleDeepCopy(c, r, "")
 			ruleXZWriter(c, r, "")
 			t := getChunkTables(c, r, "")
 			ruleWriter2(c, r, t, "")
